@@ -156,8 +156,12 @@ def random_tree(rng, budget, depth=0):
             n.attrs = n.attrs + ((XSI, "nil", "true"),)
         else:
             n.text = rng.choice(["", "t", "some text", " ", " lead", "é&<>"])
+            if n.text.strip() and rng.random() < 0.08:
+                n.attrs = n.attrs + ((XSI, "nil", "false"),)  # an explicit "not nil" on an element with content
     else:
         n.text = rng.choice(["", "", "lead", "\n  "])
+        if rng.random() < 0.05:
+            n.attrs = n.attrs + ((XSI, "nil", "false"),)
         for _ in range(nk):
             budget[0] -= 1
             k = random_tree(rng, budget, depth + 1)
